@@ -6,7 +6,7 @@ from harness import execute, OracleFail, Skip
 from checks import common as cm
 
 ID = 'C01'
-BUDGET = {'quick': 6000, 'thorough': 400000}
+BUDGET = {'quick': 30000, 'thorough': 1500000}
 WALL = {'quick': 100, 'thorough': 1500}
 CHUNK = 60
 RULE = ('case = (array rank 2-4, global shape, process grid incl. leading extent 1, 1-6 dimension '
